@@ -7,6 +7,7 @@ from hypothesis import strategies as st
 
 from harness.loader import load
 from harness.runner import Part
+from harness import build as B
 from harness import values as V
 from harness import relational as R
 from harness.refmodel import freeze
@@ -306,7 +307,7 @@ def _legible(case, ctx):
         n = len(vals)
         if n == 0 or all(x is None for x in vals):
             return
-        v = S.Vector(list(vals), name=case["name"])
+        v = B.vector(vals, name=case["name"]) if isinstance(case["name"], str) else S.Vector(list(vals), name=case["name"])
         if v.schema().kind is object:
             return
         ctx.ev()
